@@ -68,6 +68,7 @@ pub fn main(args: &Args) -> i32 {
         regimes: vec![Regime::Unrestricted, Regime::Unrestricted, Regime::Causal],
         retention: 2..=5,
         spares: 3,
+        side_percent: 35,
         ..SetupOpts::default()
     };
     let weights = Weights {
@@ -81,12 +82,13 @@ pub fn main(args: &Args) -> i32 {
         welcome: 4,
         replay: 3,
         immediate: 1,
+        side: 5,
         ..Weights::default()
     };
     let spec = Spec {
         id: "C03",
         level: "exploration",
-        rule: "histories of adds, removals, leaves (+ auto-commit), self-updates, Nostr-id rotations, races and replays with frequent messages; every client - never-invited outsiders, ex-members keeping their whole local state incl. past exporter secrets, late joiners, members - is offered every wrapper event (forward and reversed, until nothing changes) and its invitations. Judged on every delivery and on every store at the end: a message's content is returned or stored only at a client whose identity was in the sender's member list when the message was created; after processing its own removal a client holds the group Inactive, cannot send and stores nothing more. Non-trivial = a client that was not a member of the sending epoch was offered an application message; distinct = distinct plans".into(),
+        rule: "histories of adds, removals, leaves (+ auto-commit), self-updates, Nostr-id rotations, races and replays with frequent messages; every client - never-invited outsiders, ex-members keeping their whole local state incl. past exporter secrets, late joiners, members - is offered every wrapper event (forward and reversed, until nothing changes) and its invitations. Judged on every delivery and on every store at the end: a message's content is returned or stored only at a client whose identity was in the sender's member list when the message was created; after processing its own removal a client holds the group Inactive, cannot send and stores nothing more; a removal an admin's call committed (one to three members per call, keys in plan-chosen order) is really in the roster of every receiver that applies it. A third of the worlds carry a second live group on some of the same clients (one client possibly in that group only): its events given to non-members, main-group events given to the client that is only in the other group, and events re-tagged with the other group's id must be refused without effect. Non-trivial = a client that was not a member of the sending epoch was offered an application message; distinct = distinct plans".into(),
         assumptions: vec![
             "membership of the sending epoch = the member list the sender saw when it created the message (known to the harness for every branch, winning or not)".into(),
             "message contents are unique canaries, so holdings are recognised without trusting ids".into(),
